@@ -508,6 +508,23 @@ def compare_sent_doc(case_label: Any, d: Dict[str, Any], marks_in: List[int], mo
         res.count("sentdoc:trigger mixinOnFragDef")
     if not py_sound:
         res.count("sentdoc:generator state NOT within reachable (outside Proved_02)")
+    # the undo of the theorem is guided by the marks; the reading of the property removes a leading __typename only
+    # "where the authored text had none": every marked selection set must be one without a direct __typename
+    by_sid: Dict[int, List[Dict[str, Any]]] = {}
+
+    def collect(node: Dict[str, Any]) -> None:
+        if node.get("sid"):
+            by_sid[node["sid"]] = node.get("sel", [])
+        for x in node.get("sel", []):
+            if x["k"] != "spread":
+                collect(x)
+
+    collect(d["wire"])
+    for w in frag_wires.values():
+        collect(w)
+    stale = [m for m in impl["marks"] if m > 0 and any(x["k"] == "field" and x["name"] == TYPENAME for x in by_sid.get(m, []))]
+    if stale or any(m <= 0 for m in impl["marks"]):
+        res.mismatches.append(Mismatch("sentDoc.marks-fresh", inp, {"marks": impl["marks"], "stale": stale}, "marks only on selection sets without __typename"))
     res.count("sentdoc:related=%s" % min(len(related), 4))
     res.count("sentdoc:with automatic __typename" if state_impl["marks"] or marks_in else "sentdoc:no automatic __typename")
     if py_dropped != (set(reach) - related != set()) and py_sound:
@@ -536,7 +553,7 @@ MIXIN_SDL = "\ndirective @mixin(from: String, import: String) repeatable on FIEL
 
 FRAGMENT_HEAVY = {"spread_same": 0.45, "spread_sub": 0.35, "nested_spread": 0.5, "spread_with_inline": 0.3,
                   "spread_iface_at_object": 0.3, "inline_obj": 0.6, "typename": 0.15, "alias": 0.25, "dir_field": 0.1}
-REGIONS = {"spread_iface": 0.35, "dup_key": 0.08, "inline_iface": 0.1, "abstract_in_mixin": 0.3, "mixin_and_unpacked": 0.3,
+REGIONS = {"spread_iface": 0.9, "dup_key": 0.08, "inline_iface": 0.1, "abstract_in_mixin": 0.3, "mixin_and_unpacked": 0.3,
            "dir_frag": 0.1}
 
 
@@ -652,6 +669,111 @@ def gen_case(rng: random.Random, idx: int, *, regions: bool, literal_region: Opt
         calls.append({"op": op["name"], "vars": vs, "seed": idx})
     return {"label": f"random-{idx}", "sdl": sdl, "queries": queries, "config": {}, "calls": calls,
             "literal_region": literal_region, "n_ops": len(doc["operations"]), "n_frags": len(doc["fragments"])}
+
+
+FAMILY_SDL = """type Query {
+  node: Node
+  named: Named
+  search: [SR!]
+  me: User
+  echoStr(s: String, ss: [String!]): String
+}
+
+interface Node {
+  id: ID!
+}
+
+interface Named {
+  name: String
+}
+
+type User implements Node & Named {
+  id: ID!
+  name: String
+  friend: Node
+}
+
+type Bot implements Node & Named {
+  id: ID!
+  name: String
+  owner: User
+}
+
+type Doc implements Node {
+  id: ID!
+  title: String
+}
+
+union SR = User | Bot | Doc
+"""
+FAMILY_FIELDS = {"Node": ["id"], "Named": ["name"], "User": ["id", "name"], "Bot": ["id", "name"], "Doc": ["id", "title"], "SR": []}
+FAMILY_MEMBERS = {"Node": ["User", "Bot", "Doc"], "Named": ["User", "Bot"], "SR": ["User", "Bot", "Doc"], "User": ["User"], "Bot": ["Bot"], "Doc": ["Doc"]}
+
+
+def gen_family_case(rng: random.Random, idx: int) -> Optional[Dict[str, Any]]:
+    """fragment graphs at abstract positions of a fixed schema with two overlapping interfaces and a union: spreads of
+    fragments on the position's type, on members, on the OTHER interface (dropped by the generator: finding C02-F7),
+    nested and shared between operations"""
+    frags: List[str] = []
+    n_frag = [0]
+
+    def new_frag(on: str, depth: int) -> str:
+        n_frag[0] += 1
+        name = f"{rng.choice(['Fr', 'Part', 'bits'])}{n_frag[0]}"
+        body = [rng.choice(FAMILY_FIELDS[on])] if FAMILY_FIELDS[on] else ["__typename"]
+        if depth > 0 and rng.random() < 0.5:
+            body.append("..." + new_frag(rng.choice([on] + [t for t in ("Node", "Named") if set(FAMILY_MEMBERS[t]) & set(FAMILY_MEMBERS[on])]), depth - 1))
+        if on in ("Node", "Named", "SR") and rng.random() < 0.3:
+            m = rng.choice(FAMILY_MEMBERS[on])
+            body.append(f"... on {m} {{ {rng.choice(FAMILY_FIELDS[m])} }}")
+        if on == "User" and depth > 0 and rng.random() < 0.4:
+            body.append("friend { id ..." + new_frag(rng.choice(["Node", "Named", "User"]), depth - 1) + " }")
+        frags.append(f"fragment {name} on {on} {{ {' '.join(body)} }}")
+        return name
+
+    positions = [("node", "Node"), ("named", "Named"), ("search", "SR"), ("me", "User")]
+    ops = []
+    shared: List[Tuple[str, str]] = []
+    for k in range(rng.randint(1, 3)):
+        field, typ = rng.choice(positions)
+        sel = [rng.choice(FAMILY_FIELDS[typ])] if FAMILY_FIELDS[typ] and rng.random() < 0.7 else []
+        for _ in range(rng.randint(1, 2)):
+            cands = [t for t in FAMILY_MEMBERS if set(FAMILY_MEMBERS[t]) & set(FAMILY_MEMBERS[typ]) and t != "SR"] + ([typ] if typ != "SR" else [])
+            on = rng.choice(cands)
+            reuse = [n for n, t in shared if t == on]
+            if reuse and rng.random() < 0.5:
+                sel.append("..." + rng.choice(reuse))
+            else:
+                n = new_frag(on, 2)
+                shared.append((n, on))
+                sel.append("..." + n)
+        if typ != "User" and rng.random() < 0.3:
+            m = rng.choice(FAMILY_MEMBERS[typ])
+            sel.append(f"... on {m} {{ {rng.choice(FAMILY_FIELDS[m])} }}")
+        extra = ' e1: echoStr(s: "lit # 1")' if rng.random() < 0.3 else ""
+        ops.append(f"query Fam{k} {{ {field} {{ {' '.join(sel)} }}{extra} }}")
+    try:
+        from graphql import NoUnusedFragmentsRule, build_schema, parse, print_ast, specified_rules, validate
+
+        doc = parse("\n".join(ops + frags))
+        if validate(build_schema(FAMILY_SDL), doc, [r for r in specified_rules if r is not NoUnusedFragmentsRule]):
+            return None
+        queries = print_ast(doc) + "\n"
+    except Exception:  # noqa: BLE001
+        return None
+    return {"label": f"family-{idx}", "sdl": FAMILY_SDL, "queries": queries, "config": {},
+            "calls": [{"op": f"Fam{k}", "vars": {}, "seed": idx} for k in range(len(ops))], "n_ops": len(ops), "n_frags": len(frags)}
+
+
+def gen_family_cases(rng: random.Random, n: int) -> List[Dict[str, Any]]:
+    out: List[Dict[str, Any]] = []
+    i = 0
+    while len(out) < n and i < 30 * n + 30:
+        c = gen_family_case(rng, i)
+        i += 1
+        if c:
+            out.append(c)
+    return out
 
 
 # ---- operation TEXTS for the embedding correspondence
@@ -839,10 +961,11 @@ def compare_pystr(rng: random.Random, n: int, res: Result, st: Optional[LeanStat
         if fn == "indent":
             t = "".join(c for c in t if c not in LINE_SEPS[1:])  # pyIndent is stated for texts whose only raw break is \n
         if fn == "eval":
-            body = t.replace('"""', '"')
-            if "\\N" in body or any(body[j] == "\\" and j + 1 < len(body) and body[j + 1] in "01234567" and (j == 0 or body[j - 1] != "\\" or True)
-                                    for j in range(len(body))):
-                body = body.replace("\\", "")
+            body = t
+            if "\\N" in body or any(body[j] == "\\" and j + 1 < len(body) and body[j + 1] in "01234567" for j in range(len(body))):
+                body = body.replace("\\", "")  # octal and \N{...} escapes are outside the reference semantics
+            while '"""' in body:
+                body = body.replace('"""', '"')
             if body.endswith('"'):
                 body += " "
             t = '"""' + body + '"""'
@@ -1082,28 +1205,34 @@ def run(ctx: Ctx, st: Optional[LeanStatus]) -> Result:
     replay_corpus(ctx, res, st)
     # (a) sent-document correspondence
     rng = ctx.sub_rng("sentdoc")
-    n = ctx.budget(240, 2400)
-    cases = gen_cases(rng, n // 2, regions=False, mixin_frag=0.1) + gen_cases(rng, n - n // 2, regions=True, mixin_frag=0.15)
+    n = ctx.budget(240, 1400)
+    cases = (gen_cases(rng, n // 2, regions=False, mixin_frag=0.03) + gen_cases(rng, n // 3, regions=True, mixin_frag=0.06)
+             + gen_family_cases(rng, n - n // 2 - n // 3))
     ctx.log(f"sent-document correspondence on {len(cases)} documents")
     run_sentdoc_correspondence(ctx, cases, res, st)
     # (b)+(c) embedding correspondence, reference semantics of CPython strings
-    texts = gen_texts(ctx.sub_rng("texts"), ctx.budget(1600, 16000))
+    texts = gen_texts(ctx.sub_rng("texts"), ctx.budget(1600, 9000))
     ctx.log(f"embedding correspondence on {len(texts)} operation texts")
     compare_embed(texts, res, st)
-    compare_pystr(ctx.sub_rng("pystr"), ctx.budget(5000, 50000), res, st)
+    compare_pystr(ctx.sub_rng("pystr"), ctx.budget(5000, 40000), res, st)
     # oracle through the real generated client
     orng = ctx.sub_rng("oracle")
-    n = ctx.budget(40, 360)
+    n = ctx.budget(40, 220)
     ocases = []
     for i, c in enumerate(gen_cases(orng, n, regions=False)):
         ocases.append(with_variant(c, extract=i % 2 == 1, is_async=i % 5 != 0))
     for i, c in enumerate(gen_cases(orng, max(4, n // 8), regions=True, mixin_frag=0.2)):
         ocases.append(with_variant(c, extract=i % 2 == 0))
+    for i, c in enumerate(gen_family_cases(orng, max(4, n // 5))):
+        ocases.append(with_variant(c, extract=i % 3 == 0))
     for region in TEXT_TRIGGERS:
         for i, c in enumerate(gen_cases(orng, max(1, n // 40), regions=False, literal_region=region, literals=1.0)):
             ocases.append(with_variant(c, extract=i % 2 == 1))
     ctx.log(f"oracle: {len(ocases)} generated packages driven through the real client")
     run_e2e_cases(ctx, ocases, res, st, "oracle")
+    global _UNKNOWN_ALREADY_FOUND
+    known = common.load_findings(PROP)
+    _UNKNOWN_ALREADY_FOUND = any(common.match_finding(f, known) is None for f in res.failures)
     res.oracle_only += [
         "graphql-core print_ast / parse (the model's output is the document that is printed; the real string is parsed back)",
         "black, isort, autoflake on the emitted module (observed through the real ast_to_str; the model covers unparse + the regex rewriter on safe texts)",
@@ -1120,18 +1249,24 @@ def run(ctx: Ctx, st: Optional[LeanStatus]) -> Result:
     return res
 
 
+_UNKNOWN_ALREADY_FOUND = False
+
+
 def search(ctx: Ctx) -> Result:
     """after a broken proof / correspondence: judge the real code with the thorough budget"""
     res = Result()
+    if _UNKNOWN_ALREADY_FOUND:
+        ctx.log("the oracle of this run already holds a concrete failing input outside every finding: no further search")
+        return res
     preload()
     rng = ctx.sub_rng("search")
     cases = []
-    for i, c in enumerate(gen_cases(rng, 220, regions=False)):
+    for i, c in enumerate(gen_cases(rng, 120, regions=False)):
         cases.append(with_variant(c, extract=i % 2 == 1))
-    for i, c in enumerate(gen_cases(rng, 60, regions=True, mixin_frag=0.2)):
+    for i, c in enumerate(gen_cases(rng, 30, regions=True, mixin_frag=0.2) + gen_family_cases(rng, 30)):
         cases.append(with_variant(c, extract=i % 2 == 0))
     run_e2e_cases(ctx, cases, res, None, "search")
-    texts = gen_texts(ctx.sub_rng("search-texts"), 6000)
+    texts = gen_texts(ctx.sub_rng("search-texts"), 4000)
     compare_embed([t for t in texts if text_trigger(t[0]) is None], res, None)
     return res
 
